@@ -199,7 +199,14 @@ pub enum TextLine {
     /// invisible non-whitespace character (BOM, zero-width space, soft hyphen) in front of the class:
     /// the class is then a different, unknown one (prefix, throwable, is_cause)
     Invisible(String, ThrowableAst, bool),
+    /// a throwable behind a prefix that is NOT the exact, unindented `Caused by: ` (Suppressed:, lower-case variants,
+    /// logcat tags, thread headers …): passes through
+    Prefixed(String, ThrowableAst),
 }
+
+pub const OTHER_PREFIXES: &[&str] = &[
+    "Suppressed: ", "\tSuppressed: ", "    Suppressed: ", "caused by: ", "Caused By: ", "Caused by:", "CAUSED BY: ", "Caused by : ", "Exception in thread \"main\" ", "FATAL EXCEPTION: ", "E/AndroidRuntime: ", "Wrapped by: ", "... ",
+];
 
 pub const INVISIBLE: &[&str] = &["\u{feff}", "\u{200b}", "\u{2060}", "\u{ad}"];
 
@@ -245,6 +252,7 @@ pub fn text_lines(pool: &NamePool, max: usize) -> BoxedStrategy<Vec<TextLine>> {
         1 => "\\PC{0,12}".prop_map(TextLine::Raw),
         2 => (select(&["\t", "    ", " ", "\t\t", "  \t"][..]), throwable(pool)).prop_map(|(i, t)| TextLine::IndentedCause(i.to_string(), t)),
         2 => (select(INVISIBLE), throwable(pool), any::<bool>()).prop_map(|(p, t, c)| TextLine::Invisible(p.to_string(), t, c)),
+        3 => (select(OTHER_PREFIXES), throwable(pool)).prop_map(|(p, t)| TextLine::Prefixed(p.to_string(), t)),
     ];
     vec(line, 0..=max).boxed()
 }
@@ -268,6 +276,7 @@ impl TextTrace {
                 TextLine::IndentedCause(i, t) => format!("{i}Caused by: {}", t.print()),
                 TextLine::Invisible(p, t, true) => format!("Caused by: {p}{}", t.print()),
                 TextLine::Invisible(p, t, false) => format!("{p}{}", t.print()),
+                TextLine::Prefixed(p, t) => format!("{p}{}", t.print()),
                 // raw lines never contain line terminators
                 TextLine::Raw(s) => s.replace(['\n', '\r'], " "),
             })
@@ -370,6 +379,23 @@ pub fn param_trace(pool: &NamePool, params: &[String]) -> BoxedStrategy<TraceAst
                 frames.push(fr);
             }
             TraceAst { exception: exc, frames, cause: None }
+        })
+        .boxed()
+}
+
+
+/// Typed traces as the *parser* can produce them: a cause level may lack its throwable (the text after
+/// `Caused by: ` did not parse) and may have no frames at all — also as the last level.
+pub fn parsed_like_trace(pool: &NamePool, max_frames: usize, max_depth: usize) -> BoxedStrategy<TraceAst> {
+    let level = (prop::option::weighted(0.6, throwable(pool)), vec(frame(pool), 0..=max_frames), 0u8..100);
+    (prop::option::weighted(0.8, throwable(pool)), vec(frame(pool), 0..=max_frames), vec(level, 1..=max_depth))
+        .prop_map(|(exc, frames, causes)| {
+            let mut cause: Option<Box<TraceAst>> = None;
+            for (t, fr, dice) in causes.into_iter().rev() {
+                let fr = if dice < 40 { vec![] } else { fr };
+                cause = Some(Box::new(TraceAst { exception: t, frames: fr, cause }));
+            }
+            TraceAst { exception: exc, frames, cause }
         })
         .boxed()
 }
